@@ -15,6 +15,11 @@ Parts
                 QueryParamDict, OrderedMultiDict, dict) and through add / update / update_extend / replacement on a
                 parsed URL; a rootless path (first segment = the text) next to an authority, for one base per kind
                 of scheme (registered netloc / unregistered / registered no-netloc / '+'), parsed and assembled
+                the same query cells placed by item assignment and after clear() of a parsed query, and
+                read back from a copy URL(url_object) of an assembled / parsed-then-modified URL
+  roundtrip-bulk (directed, NOT exhaustive): n query pairs with distinct keys / under one key, n path segments, a
+                text of n units in each component, n around powers of two and integer constants of the module under
+                test and one size above all of them; built by assignment, from_parts and as a copy
   quote         quote_{userinfo,path,query,fragment}_part(s, full_quote=True): legal characters only, undone by
                 unquote; unquote against a 6-line reference decoder on character strings and escape-token strings,
                 on '%' + every pair of ASCII characters and on every upper/lower-case spelling of multi-byte runs
@@ -284,7 +289,15 @@ QUERY_SHAPES = {'from_parts': lambda U, pairs: list(pairs),
 
 
 PATH_SHAPES = {'from_parts_iter': iter, 'from_parts_qpd': list}        # path_parts: any iterable of segments
-ASSIGN_HOWS = ('assign', 'assign_update', 'assign_extend', 'assign_replace')
+DICT_LIKE_HOWS = ('from_parts_dict', 'copy_from_parts_dict', 'assign_setitem', 'copy_assign_setitem')
+ASSIGN_HOWS = ('assign', 'assign_update', 'assign_extend', 'assign_replace', 'assign_clear')
+# URL(url_object) used to copy through the minimally quoted text (lossy when a decoded component contains '%': genuine
+# defect, repaired by fixes/C07-5-url-copy-keeps-escaped-percent); since the repair copies are explored for every text
+COPY_PERCENT_EXPLORED = True
+COPY_HOWS = ('copy_assign', 'copy_from_parts', 'copy_assign_replace', 'copy_assign_clear')
+# url.qp ("a synonym for query_params") re-parses the original query text on every access and forgets what was placed
+# before: genuine defect on the unchanged tree (fixes/C06-qp-alias.patch); explored once this is True
+QP_ALIAS_EXPLORED = True
 
 
 def build_url(U, base, v, how):
@@ -293,13 +306,18 @@ def build_url(U, base, v, how):
     (only used with name / IPv4 hosts: from_parts has no way to say "IPv6"); 'from_parts_<shape>': the query pairs
     are handed over as that shape (QUERY_SHAPES), path_parts as PATH_SHAPES; 'assign_<op>': the pairs reach the parsed
     URL's query_params through update / update_extend / a new QueryParamDict instead of add."""
+    if how.startswith('copy_'):
+        # the URL under test is a copy, URL(url_object), of the URL built the other way
+        u, parsed = build_url(U, base, v, how[len('copy_'):])
+        return U.URL(u), parsed
     parsed = U.URL(base)
     if how in QUERY_SHAPES:
         path = PATH_SHAPES.get(how, tuple)(v['path'])
         return U.URL.from_parts(scheme=parsed.scheme, host=parsed.host, port=parsed.port, path_parts=path,
                                 query_params=QUERY_SHAPES[how](U, v['query']), fragment=v['fragment'],
                                 username=v['username'], password=v['password']), parsed
-    u = U.URL(base)
+    # 'assign_clear': the parsed text had a query of its own, which is emptied before the pairs are placed
+    u = U.URL(base + '?zz=old&k=stale;y') if how == 'assign_clear' else U.URL(base)
     u.username = v['username']
     u.password = v['password']
     u.path_parts = tuple(v['path'])
@@ -316,6 +334,16 @@ def build_url(U, base, v, how):
         u.query_params.update_extend(list(v['query']))
     elif how == 'assign_replace':
         u.query_params = U.QueryParamDict(v['query'])
+    elif how == 'assign_setitem':
+        for k, val in v['query']:
+            u.query_params[k] = val
+    elif how == 'assign_clear':
+        u.query_params.clear()
+        for k, val in v['query']:
+            u.query_params.add(k, val)
+    elif how == 'assign_qp':
+        for k, val in v['query']:
+            u.qp.add(k, val)                  # "qp is a synonym for query_params" (URL docstring)
     else:
         raise AssertionError(how)
     return u, parsed
@@ -388,31 +416,53 @@ def fixed_points(U, u, out, full_text=None, default_tags=()):
                         tags.get('raised', default_tags)))
 
 
+def _brief(exp, obs, limit=12):
+    """Bulk scenarios: a long expected / observed sequence or text is reported by its length and the neighbourhood of
+    the first difference."""
+    def clip(x):
+        return _clip(x, 120) if isinstance(x, str) else \
+            type(x)(clip(y) for y in x) if isinstance(x, (tuple, list)) else x
+    if isinstance(exp, (list, tuple)) and isinstance(obs, (list, tuple)) and max(len(exp), len(obs)) > limit:
+        i = next((j for j, (a, b) in enumerate(zip(exp, obs)) if a != b), min(len(exp), len(obs)))
+        lo = max(0, i - 1)
+        return ({'length': len(exp), 'first_difference_at': i, 'there': clip(list(exp[lo:i + 2]))},
+                {'length': len(obs), 'first_difference_at': i, 'there': clip(list(obs[lo:i + 2]))})
+    return clip(exp), clip(obs)
+
+
 def eval_cell(U, base, comp, text, frame, how='assign'):
-    out = []
     v = frame_values(comp, text, frame)
-    if how == 'from_parts_dict':
+    if how in DICT_LIKE_HOWS:
         v['query'] = list(dict(v['query']).items())       # what a plain dict holds: the last value of each key
     tags = text_tags(comp, text, v)
-    pre = 'C06|roundtrip:%s|' % comp
+    return eval_values(U, base, comp, v, frame, how, tags, 'C06|roundtrip:%s|' % comp)
+
+
+def eval_values(U, base, comp, v, frame, how, tags, pre, bulk=False):
+    """Place the decoded values v, render fully quoted, re-parse, compare.  bulk: long values are reported briefly."""
+    out = []
     try:
         u, parsed = build_url(U, base, v, how)
     except Exception as e:
-        return [(pre + 'build-raised:%s' % _exc(e), 'URL built', 'raised %r' % e, tags)]
+        return [(pre + 'build-raised:%s' % _exc(e), 'URL built', _clip('raised %r' % e, 600), tags)]
     try:
         t = u.to_text(full_quote=True)
     except Exception as e:
-        return [(pre + 'to_text-raised:%s' % _exc(e), 'a text', 'raised %r' % e, tags)]
+        return [(pre + 'to_text-raised:%s' % _exc(e), 'a text', _clip('raised %r' % e, 600), tags)]
     for pos in illegal_positions(t):
-        out.append((pre + 'illegal-character-in-%s' % pos, 'only RFC 3986 characters of that position', t, tags))
+        out.append((pre + 'illegal-character-in-%s' % pos, 'only RFC 3986 characters of that position',
+                    _clip(t) if bulk else t, tags))
     try:
         u2 = U.URL(t)
     except Exception as e:
-        out.append((pre + 'reparse-raised:%s' % _exc(e), 'parses', '%s -> raised %r' % (t, e), tags))
+        out.append((pre + 'reparse-raised:%s' % _exc(e), 'parses',
+                    _clip('%s -> raised %r' % (_clip(t) if bulk else t, e), 900), tags))
         return out
 
     def bad(what, exp, obs):
-        out.append((pre + what, exp, {'text': t, 'observed': obs}, tags))
+        if bulk:
+            exp, obs = _brief(exp, obs)
+        out.append((pre + what, exp, {'text': _clip(t) if bulk else t, 'observed': obs}, tags))
 
     # components that are not under test: scheme, host, port
     if u2.scheme != parsed.scheme:
@@ -463,8 +513,21 @@ def eval_cell(U, base, comp, text, frame, how='assign'):
                 bad('leaked-into-query', exp_q, obs_q)
             break
     # the re-parsed URL is a parsed well-formed URL: both renderings are fixed points
+    n0 = len(out)
     fixed_points(U, u2, out, full_text=t, default_tags=tags)
+    if bulk:
+        for i in range(n0, len(out)):
+            sig, exp, obs, tg = out[i]
+            j = next((k for k, (a, b) in enumerate(zip(exp, obs)) if a != b), min(len(exp), len(obs))) \
+                if isinstance(exp, str) and isinstance(obs, str) else 0
+            out[i] = (sig, _brief_text(exp, j), _brief_text(obs, j), tg)
     return out
+
+
+def _brief_text(x, at):
+    if not isinstance(x, str) or len(x) <= 300:
+        return x
+    return {'length': len(x), 'first_difference_at': at, 'there': x[max(0, at - 60):at + 120]}
 
 
 QUOTE_FNS = {'quote_userinfo_part': RE_USERINFO, 'quote_path_part': RE_PATH, 'quote_query_part': RE_QUERY,
@@ -697,6 +760,8 @@ def shard_cells(arg, t, g):
         for base in arg['bases']:
             for frame in arg['frames']:
                 for how in arg['hows']:
+                    if how.startswith('copy_') and '%' in text and not COPY_PERCENT_EXPLORED:
+                        continue
                     case = {'part': arg['part'], 'base': base, 'component': comp, 'text': text, 'frame': frame,
                             'build': how}
                     t.count(nontrivial=nontrivial, sample=case if len(t.samples) < 3 else None)
@@ -799,6 +864,77 @@ def _clip(x, n=300):
 
 def long_text(case):
     return case['template'] % (case['unit'] * case['n'])
+
+
+BULK_KINDS = ('query_pairs', 'repeated_key', 'path_segments', 'text')
+BULK_UNITS = ['a', '%', ' ', '\u00e9', '&=', 'e\u0301', '%41']
+BULK_BASE = 'x-y.z://example.com:8443'
+
+
+def bulk_sizes(tier, module=None):
+    """Numbers of items / characters of the bulk scenarios: around powers of two, powers of ten (thorough) and every
+    integer constant in 64..2**17 at the top level of the module under test, each -1, +0, +1, +2; and one size above
+    all of them (a limit anywhere below it misbehaves there too)."""
+    centres = {256, 4096} if tier == 'quick' else {256, 1024, 4096, 16384, 65536, 1000, 10000, 100000}
+    for name in sorted(vars(module)) if module is not None else ():
+        val = vars(module)[name]
+        if type(val) is int and 64 <= val <= 1 << 17:
+            centres.add(val)
+    top = max(max(centres) + 2, (1 << 15 if tier == 'quick' else 1 << 18)) + 1
+    return sorted({n + d for n in centres for d in (-1, 0, 1, 2)} | {top})
+
+
+def bulk_values(case):
+    """Decoded component values of a bulk scenario: n query pairs with distinct keys / under one key, n path segments,
+    or a text of n units in one component - inside the full frame."""
+    kind, n = case['kind'], case['n']
+    comp = {'query_pairs': 'query_value', 'repeated_key': 'query_value', 'path_segments': 'path_segment'}.get(
+        kind, case.get('component'))
+    v = frame_values(comp, 'x', 'full')
+    if kind == 'query_pairs':
+        v['query'] = [('k%d' % i, 'v %d&=' % i) for i in range(n)]
+    elif kind == 'repeated_key':
+        v['query'] = [('k', 'v %d&=' % i) for i in range(n)]
+    elif kind == 'path_segments':
+        v['path'] = ('',) + tuple('s %d/' % i for i in range(n))
+    elif kind == 'text':
+        v = frame_values(comp, case['unit'] * n, 'full')
+    else:
+        raise AssertionError(kind)
+    return comp, v
+
+
+def eval_bulk(U, case):
+    comp, v = bulk_values(case)
+    pre = 'C06|roundtrip-bulk:%s|' % (case['kind'] if case['kind'] != 'text' else comp)
+    return eval_values(U, BULK_BASE, comp, v, 'full', case['build'], (), pre, bulk=True)
+
+
+def shard_bulk(arg, t, g):
+    U = _u()
+    g.budget = 12 * CASE_CPU_BUDGET_S
+    for n in arg['sizes']:                      # smallest first
+        for case in arg['cases']:
+            case = dict(case, part='roundtrip-bulk', n=n)
+            t.count(nontrivial=True, sample=case if len(t.samples) < 3 else None)
+            _record(t, case, g.call(case, eval_bulk, U, case))
+
+
+def bulk_shards(tier, sizes):
+    hows = ('assign', 'from_parts', 'copy_from_parts')
+    args = []
+    small, large = [n for n in sizes if n <= 5000], [n for n in sizes if n > 5000]
+    for kind in BULK_KINDS[:3]:
+        for how in hows:
+            args.append({'sizes': small, 'cases': [{'kind': kind, 'build': how}]})
+            for n in large:                      # the expensive ones: one per shard
+                args.append({'sizes': [n], 'cases': [{'kind': kind, 'build': how}]})
+    for comp in COMPONENTS:
+        cases = [{'kind': 'text', 'component': comp, 'unit': unit, 'build': how}
+                 for unit in BULK_UNITS
+                 for how in ('assign', 'from_parts' if '%' in unit and not COPY_PERCENT_EXPLORED else 'copy_from_parts')]
+        args.append({'sizes': sizes, 'cases': cases})
+    return args
 
 
 def shard_totality_long(arg, t, g):
@@ -906,6 +1042,12 @@ def run(ctx):
                          'frames': ('repeat',), 'hows': ASSIGN_HOWS + ('from_parts',) + mappings})
             args.append({'part': 'shapes', 'component': comp, 'texts': chunk, 'bases': list(SHAPE_BASES[:2]),
                          'frames': ('full', 'sparse'), 'hows': mappings[:3] if in_query else mappings})
+            # copies (URL(url_object)) of assembled and of parsed-then-modified URLs; item assignment; the qp alias
+            args.append({'part': 'shapes', 'component': comp, 'texts': chunk, 'bases': list(SHAPE_BASES[:1]),
+                         'frames': ('repeat', 'sparse'), 'hows': COPY_HOWS})
+            args.append({'part': 'shapes', 'component': comp, 'texts': chunk, 'bases': list(SHAPE_BASES[:1]),
+                         'frames': ('full',), 'hows': ('assign_setitem', 'copy_assign_setitem', 'assign_clear')
+                         + (('assign_qp',) if QP_ALIAS_EXPLORED else ())})
         in_path = comp == 'path_segment'
         for chunk in _chunks(shape_texts if in_path else few, 8 if in_path else 1):
             args.append({'part': 'shapes', 'component': comp, 'texts': chunk, 'bases': list(SHAPE_BASES),
@@ -944,6 +1086,10 @@ def run(ctx):
     args = [{'units': [unit], 'sizes': sizes} for unit in LONG_UNITS]
     inputs.run_shards(ctx, _guarded(shard_totality_long), args, part='totality-long', rule=rule)
 
+    # 5. bulk round trips (directed, NOT exhaustive): many query pairs / path segments, long component texts
+    bsizes = bulk_sizes(ctx.tier, _module_under_test)
+    inputs.run_shards(ctx, _guarded(shard_bulk), bulk_shards(ctx.tier, bsizes), part='roundtrip-bulk', rule=rule)
+
     cov = ctx.coverage
     cov['rule'] = rule
     hangs = sum(p.get('hangs', 0) for p in cov.get('parts', {}).values())
@@ -955,7 +1101,10 @@ def run(ctx):
         non_ascii=NON_ASCII, atoms=ATOMS, components=list(COMPONENTS), schemes=list(SCHEMES), hosts=list(HOSTS),
         ports=list(PORTS), alphabet24=ALPHABET24, unquote_tokens=UNQUOTE_TOKENS, totality_tokens=TOTALITY_TOKENS,
         shapes={'bases': list(SHAPE_BASES), 'query_params_shapes': sorted(QUERY_SHAPES),
-                'query_placed_on_parsed_url_by': ['add', 'update', 'update_extend', 'replacing query_params'],
+                'query_placed_on_parsed_url_by': ['add', 'update', 'update_extend', 'replacing query_params',
+                                                  '__setitem__', 'clear() of a parsed query, then add']
+                + (['qp.add'] if QP_ALIAS_EXPLORED else []),
+                'copies': 'URL(url_object) of ' + ', '.join(h[5:] for h in COPY_HOWS) + ('' if COPY_PERCENT_EXPLORED else " (texts without '%')"),
                 'frames': ['repeat (a query key occurs twice)', 'rootless / rootless_sparse (rootless path next to an '
                            'authority)'],
                 'texts': 'strings of length <= 2 over alphabet24 + matrix texts in the components concerned, %r elsewhere' % (few,)},
@@ -970,6 +1119,12 @@ def run(ctx):
                        'units': LONG_UNITS, 'sizes': sizes,
                        'sizes_from': 'powers of two, sys.get_int_max_str_digits(), top-level integer constants of '
                                      'boltons.urlutils; each -1, +0, +1'},
+        roundtrip_bulk={'exhaustive': False,
+                        'what': 'directed scenario: n query pairs with distinct keys / under one key, n path segments, '
+                                'a text of n units in each component; built by assignment, from_parts and as a copy',
+                        'sizes': bsizes, 'units': BULK_UNITS, 'base': BULK_BASE,
+                        'sizes_from': 'powers of two (and of ten, thorough), top-level integer constants of '
+                                      'boltons.urlutils; each -1, +0, +1, +2; one size above all of them'},
         grammar_menus={'schemes': list(G_SCHEMES), 'userinfo': list(G_USERINFO), 'hosts': list(G_HOSTS),
                        'ports': list(G_PORTS), 'path_abempty': len(G_PATH_ABEMPTY),
                        'path_absolute': len(G_PATH_ABSOLUTE), 'path_rootless': len(G_PATH_ROOTLESS),
@@ -988,7 +1143,14 @@ def run(ctx):
         'minimal-quote fixed points are demanded only when no decoded component contains "%"',
         'Unicode is represented by %d code point sequences in the round-trip parts; in the totality part additionally '
         'by two code points of each of %d classes of a partition computed from unicodedata' % (len(NON_ASCII), n_classes),
-        'part totality-long is a finite list of directed scenarios (long runs of one unit), not an enumeration; '
+        ("URL(url_object) copies are explored for every component text (the copy takes the decoded components since "
+         "the repair)" if COPY_PERCENT_EXPLORED else
+         "URL(url_object) copies are explored for component texts without '%' only (the copy goes through the "
+         "minimally quoted text)"),
+        'url.qp is %s' % ('explored as a way to place query text' if QP_ALIAS_EXPLORED else
+                          'NOT explored: on the unchanged tree every access re-parses the original query text '
+                          '(reported defect, fixes/C06-qp-alias.patch)'),
+        'part roundtrip-bulk is a finite list of directed scenarios as well; part totality-long is a finite list of directed scenarios (long runs of one unit), not an enumeration; '
         '"exhaustive" refers to the other parts',
     ]
 
@@ -1020,6 +1182,8 @@ def _replay(ctx, data, case):
         res = eval_grammar(U, case['url'])
     elif part == 'totality':
         res = eval_totality(U, case['text'])
+    elif part == 'roundtrip-bulk':
+        res = eval_bulk(U, case)
     elif part == 'totality-long':
         res = [(sig, exp, _clip(obs), tags) for sig, exp, obs, tags in eval_totality(U, long_text(case))]
     else:
